@@ -52,6 +52,9 @@ def _pj(x):
     return ".?"
 
 
+EMPTY = (2 ** 300, -2 ** 300)          # the interval of a value that cannot exist on this path
+
+
 def hull(a, b):
     if a is None or b is None:
         return None
@@ -118,6 +121,8 @@ class Intervals:
                 v -= (r[1] - r[0] + 1)     # signed constants are exported as raw bits
             return (v, v)
         if k in env:
+            if env[k][0] > env[k][1]:
+                return ty_range(self.op_ty(op) or "")          # empty: read on a path the analysis cannot rule out
             return env[k]
         return ty_range(self.op_ty(op) or "")
 
@@ -213,6 +218,14 @@ class Intervals:
         if kind == "use":
             iv = self.val(env, rv["x"])
             sk = self.op_key(rv["x"])
+            sp = rv["x"].get("copy") or rv["x"].get("move") if isinstance(rv["x"], dict) else None
+            if sp is not None and not sp["p"] and not p["p"] and sp["l"] != p["l"]:
+                # a whole local copied / moved: what is known about its fields and variant payloads goes with it
+                for kk in list(env):
+                    if kk[0] == "l" and len(kk) == 3 and kk[1] == sp["l"]:
+                        env[("l", p["l"], kk[2])] = env[kk]
+                    elif kk[0] == "p" and re.match(r"^%d[.@]" % sp["l"], kk[1]):
+                        env[("p", "%d%s" % (p["l"], kk[1][len(str(sp["l"])):]))] = env[kk]
             if sk is not None and sk[0] != "c" and "copy" in rv["x"]:
                 env[("a", k)] = sk
             if sk is not None and sk[0] != "c":
@@ -309,6 +322,17 @@ class Intervals:
                 v = self.val(env, o)
                 if v is not None and not p["p"]:
                     env[("l", p["l"], i)] = v
+                    if rv.get("agg") == "adt" and rv.get("variant") is not None:
+                        # payload of an enum variant, as read back through `(x as Variant).i`
+                        env[("p", "%d@%d.%d" % (p["l"], rv["variant"], i))] = v
+            if rv.get("agg") == "adt" and rv.get("variant") is not None and not p["p"]:
+                # the payloads of the other variants do not exist in this value: the empty interval (neutral at joins), so that
+                # `if c { E::A(1) } else { E::B(2) }` keeps what is known about either payload
+                en = self.mir.enums.get(rv.get("adt") or "")
+                for w in (en or {}).get("variants", []):
+                    if w["idx"] != rv["variant"]:
+                        for i in range(len(w.get("fields") or [])):
+                            env[("p", "%d@%d.%d" % (p["l"], w["idx"], i))] = EMPTY
             return
         else:
             iv = ty_range(dst_ty or "")
